@@ -4,8 +4,9 @@
    gob is abstracted: every theorem below that mentions [enc_tok]/[dec_tok] holds for
    ANY token codec satisfying the three stated hypotheses (injective self-delimiting
    encoding; io.EOF on empty input; io.ErrUnexpectedEOF on a cut inside a token), any
-   custom column codec whose Decode inverts its Encode, and either setting [cf] of the
-   two proposed fixes unless it says [code_cfg]. *)
+   custom column codec whose Decode inverts its Encode, and every configuration [cf] of the
+   three repairs made to codec.go unless it names one: [code_cfg] is /repo as it is (all
+   three repairs), [defective_cfg] the code before them (kept for the witnesses). *)
 From Coq Require Import String.
 From Coq Require Import List ZArith NArith Bool.
 Import ListNotations.
@@ -25,9 +26,41 @@ Proof. repeat split; reflexivity. Qed.
 (* decode zeroes the destination first *)
 Theorem C07_gen_zero_first : codec_decode_first_stmt = "f.Zero()"%string.
 Proof. reflexivity. Qed.
-(* one io.EOF conversion in Read, one in decode *)
-Theorem C07_gen_eof_conversions : codec_eof_compares = [1; 1]%Z.
+(* one io.EOF test in Read, one in decode; the clean end-of-stream value sliceio.EOF is produced
+   only in Read, and only when no byte of a new batch was read; decode turns io.EOF into
+   io.ErrUnexpectedEOF (repair 2) *)
+Theorem C07_gen_eof_conversions :
+  codec_eof_compares = [1; 1]%Z /\ codec_clean_eof_uses = [1; 0]%Z /\ codec_unexpected_eof_uses = [1; 1]%Z.
+Proof. repeat split; reflexivity. Qed.
+(* the branch conditions of Read, in source order: sticky error; length token; io.EOF only at a
+   batch boundary (repair 2); negative length (repair 1); direct vs buffered path *)
+Theorem C07_gen_read_branches :
+  codec_read_if_conds =
+  ["d.err != nil"; "d.err = d.dec.Decode(&n); d.err != nil"; "d.err == io.EOF"; "*d.nread == 0";
+   "n < 0"; "n <= f.Len()"; "d.err = d.decode(f.Slice(0, n)); d.err != nil"; "d.scratch.IsZero()";
+   "d.err = d.decode(d.buf); d.err != nil"]%string.
 Proof. reflexivity. Qed.
+(* the branch conditions of decode: flag; missing codec; custom codec; gob column with its io.EOF
+   test and the length check (repair 3); checksum *)
+Theorem C07_gen_decode_branches :
+  codec_decode_if_conds =
+  ["err := d.dec.Decode(&codec); err != nil"; "codec && !f.HasCodec(col)"; "codec";
+   "err := f.Decode(col, d.dec); err != nil"; "err != nil"; "err == io.EOF";
+   "pHdr.Data != sh.Data || pHdr.Len != sh.Len"; "err := d.dec.Decode(&decoded); err != nil";
+   "sum != decoded"]%string.
+Proof. reflexivity. Qed.
+(* the error texts; no panic("gob reallocated a slice") any more *)
+Theorem C07_gen_error_texts :
+  codec_read_strings = ["invalid batch length %d"]%string
+  /\ codec_decode_strings =
+     ["column encoded with custom codec but no codec available on receipt";
+      "column length does not match batch length";
+      "computed checksum %x but expected checksum %x"]%string.
+Proof. split; reflexivity. Qed.
+(* the model of the code as it is has the three repairs *)
+Theorem C07_code_cfg_is_fixed :
+  fix_len code_cfg = true /\ fix_eof code_cfg = true /\ fix_collen code_cfg = true.
+Proof. exact code_cfg_is_fixed. Qed.
 (* the gob calls per batch: length, per column flag + value, checksum *)
 Theorem C07_gen_token_order :
   codec_write_enc_calls = ["Encode"%string; "Encode"%string; "EncodeValue"%string; "Encode"%string]
@@ -210,7 +243,7 @@ Proof. exact truncation_inside_token. Qed.
 Print Assumptions C07_truncation_not_eof.
 
 (* cut exactly at a token boundary inside batch k: the outcome is decided by the token that was
-   expected next ... *)
+   expected next (any configuration) *)
 Theorem C07_truncation_at_boundary :
   forall (St : Type) (enc_tok : St -> token -> list N * St) (dec_tok : St -> list N -> dres St)
          (Sess : Type) (cenc cdec : Sess -> list Z -> list Z * Sess) (cf : cfg),
@@ -229,24 +262,102 @@ Theorem C07_truncation_at_boundary :
 Proof. exact truncation_at_boundary. Qed.
 Print Assumptions C07_truncation_at_boundary.
 
-(* ... REFUTED for codec.go as it is: before a gob-encoded column that outcome is end-of-stream *)
-Theorem C07_trunc_boundary_silent : forall cf d, fix_eof cf = false -> cut_err_tok cf SIoEOF (TCol d) = EEOF.
-Proof. exact cut_before_gob_column_is_eof. Qed.
+(* THE CODE AS IT IS: any cut strictly inside batch k - inside a token or at a token boundary,
+   including inside the length token - yields the batches before k and then an error that is
+   not end-of-stream, for ever *)
+Theorem C07_truncation_never_eof :
+  forall (St : Type) (enc_tok : St -> token -> list N * St) (dec_tok : St -> list N -> dres St)
+         (Sess : Type) (cenc cdec : Sess -> list Z -> list Z * Sess),
+  (forall s t rest, dec_tok s (fst (enc_tok s t) ++ rest)
+                    = DOk t (length (fst (enc_tok s t))) (snd (enc_tok s t))) ->
+  (forall s, dec_tok s [] = DIoEOF) ->
+  (forall s t p q, fst (enc_tok s t) = p ++ q -> p <> [] -> q <> [] -> dec_tok s p = DUnexpectedEOF) ->
+  (forall s v, cdec s (fst (cenc s v)) = (v, snd (cenc s v))) ->
+  forall sch st0 s0 pre f dests i p q,
+  let wk := fold_left (enc_write St enc_tok Sess cenc sch) pre (w_init St Sess st0 s0) in
+  let toks := full_toks St enc_tok Sess cenc sch wk f in
+  Forall (wf_frame sch) pre -> wf_frame sch f -> Forall (wf_frame sch) dests ->
+  (i < length toks)%nat ->
+  fst (enc_tok (st_after St enc_tok (wst wk) (firstn i toks)) (nth i toks dflt)) = p ++ q ->
+  q <> [] -> ((1 <= i)%nat \/ p <> []) ->
+  exists e, e <> EEOF /\
+    reads St dec_tok Sess cdec code_cfg sch
+          (r_init St Sess (wout wk ++ bytes_of St enc_tok (wst wk) (firstn i toks) ++ p) st0 s0) dests
+    = spec_reads e pre [] (map flen dests).
+Proof.
+  intros St enc_tok dec_tok Sess cenc cdec H1 H2 H3 H4 sch st0 s0 pre f dests i p q.
+  exact (truncation_never_eof St enc_tok dec_tok Sess cenc cdec code_cfg H1 H2 H3 H4 sch st0 s0 pre f dests i p q eq_refl).
+Qed.
+Print Assumptions C07_truncation_never_eof.
 
-Theorem C07_trunc_boundary_refuted :
-  exists sch batches cut dests,
-    Forall (wf_frame sch) batches /\ Forall (wf_frame sch) dests /\
-    (0 < cut < length (toy_encode sch batches))%nat /\ rows_of batches = 3%nat /\
-    toy_reads code_cfg sch (firstn cut (toy_encode sch batches)) dests = [RErr EEOF; RErr EEOF].
-Proof. exact trunc_boundary_refuted. Qed.
-Print Assumptions C07_trunc_boundary_refuted.
+(* THE CODE AS IT IS: a negative batch length is an error for ever (never a panic), after the
+   batches before it, whatever bytes follow *)
+Theorem C07_negative_length_is_error :
+  forall (St : Type) (enc_tok : St -> token -> list N * St) (dec_tok : St -> list N -> dres St)
+         (Sess : Type) (cenc cdec : Sess -> list Z -> list Z * Sess),
+  (forall s t rest, dec_tok s (fst (enc_tok s t) ++ rest)
+                    = DOk t (length (fst (enc_tok s t))) (snd (enc_tok s t))) ->
+  (forall s v, cdec s (fst (cenc s v)) = (v, snd (cenc s v))) ->
+  forall sch st0 s0 pre n Q dests,
+  let wk := fold_left (enc_write St enc_tok Sess cenc sch) pre (w_init St Sess st0 s0) in
+  (n < 0)%Z -> Forall (wf_frame sch) pre -> Forall (wf_frame sch) dests ->
+  reads St dec_tok Sess cdec code_cfg sch
+        (r_init St Sess (wout wk ++ fst (enc_tok (wst wk) (TLen n)) ++ Q) st0 s0) dests
+  = spec_reads EBadLen pre [] (map flen dests).
+Proof.
+  intros St enc_tok dec_tok Sess cenc cdec H1 H4 sch st0 s0 pre n Q dests.
+  exact (negative_length_reads St enc_tok dec_tok Sess cenc cdec code_cfg H1 H4 sch st0 s0 pre n Q dests eq_refl).
+Qed.
+Print Assumptions C07_negative_length_is_error.
 
-(* with proposed fix 2 no cut inside a batch is end-of-stream *)
+(* THE CODE AS IT IS: a batch length that disagrees with the element count of the first,
+   gob-encoded column is an integrity error for ever (never a panic), whatever bytes follow *)
+Theorem C07_length_mismatch_is_error :
+  forall (St : Type) (enc_tok : St -> token -> list N * St) (dec_tok : St -> list N -> dres St)
+         (Sess : Type) (cenc cdec : Sess -> list Z -> list Z * Sess),
+  (forall s t rest, dec_tok s (fst (enc_tok s t) ++ rest)
+                    = DOk t (length (fst (enc_tok s t))) (snd (enc_tok s t))) ->
+  (forall s v, cdec s (fst (cenc s v)) = (v, snd (cenc s v))) ->
+  forall sch st0 s0 pre n' cl Q dests k ks,
+  let wk := fold_left (enc_write St enc_tok Sess cenc sch) pre (w_init St Sess st0 s0) in
+  sch = k :: ks -> length cl <> n' ->
+  Forall (wf_frame sch) pre -> Forall (wf_frame sch) dests ->
+  reads St dec_tok Sess cdec code_cfg sch
+        (r_init St Sess (wout wk ++ bytes_of St enc_tok (wst wk) [TLen (Z.of_nat n'); TFlag false; TCol cl] ++ Q) st0 s0) dests
+  = spec_reads EIntegrity pre [] (map flen dests).
+Proof.
+  intros St enc_tok dec_tok Sess cenc cdec H1 H4 sch st0 s0 pre n' cl Q dests k ks.
+  exact (length_mismatch_reads St enc_tok dec_tok Sess cenc cdec code_cfg H1 H4 sch st0 s0 pre n' cl Q dests k ks eq_refl).
+Qed.
+Print Assumptions C07_length_mismatch_is_error.
+
+(* ---------------------------------------------------------------- the three repaired defects, as witnesses about [defective_cfg] *)
+(* before repair 2 the outcome of a cut before a gob-encoded column was end-of-stream ... *)
+Theorem C07_trunc_boundary_defective : forall cf d, fix_eof cf = false -> cut_err_tok cf SIoEOF (TCol d) = EEOF.
+Proof. exact cut_before_gob_column_was_eof. Qed.
+(* ... with it, never *)
 Theorem C07_trunc_boundary_fixed : forall cf term next, fix_eof cf = true -> cut_err_tok cf term next <> EEOF.
 Proof. exact cut_fixed_never_eof. Qed.
 
-(* ---------------------------------------------------------------- REFUTED: a negative length panics *)
-Theorem C07_negative_length_refuted :
-  exists sch inp dests, Forall (wf_frame sch) dests /\ toy_reads code_cfg sch inp dests = [RPanic].
-Proof. exact negative_length_refuted. Qed.
-Print Assumptions C07_negative_length_refuted.
+Theorem C07_trunc_boundary_defective_witness :
+  exists sch batches cut dests,
+    Forall (wf_frame sch) batches /\ Forall (wf_frame sch) dests /\
+    (0 < cut < length (toy_encode sch batches))%nat /\ rows_of batches = 3%nat /\
+    toy_reads defective_cfg sch (firstn cut (toy_encode sch batches)) dests = [RErr EEOF; RErr EEOF] /\
+    toy_reads code_cfg sch (firstn cut (toy_encode sch batches)) dests = [RErr EUnexpected; RErr EUnexpected].
+Proof. exact trunc_boundary_defective_witness. Qed.
+Print Assumptions C07_trunc_boundary_defective_witness.
+
+Theorem C07_negative_length_defective_witness :
+  exists sch inp dests, Forall (wf_frame sch) dests /\
+    toy_reads defective_cfg sch inp dests = [RPanic] /\
+    toy_reads code_cfg sch inp dests = [RErr EBadLen; RErr EBadLen].
+Proof. exact negative_length_defective_witness. Qed.
+Print Assumptions C07_negative_length_defective_witness.
+
+Theorem C07_length_mismatch_defective_witness :
+  exists sch inp dests, Forall (wf_frame sch) dests /\
+    toy_reads defective_cfg sch inp dests = [RErr ERawEOF; RErr ERawEOF] /\
+    toy_reads code_cfg sch inp dests = [RErr EIntegrity; RErr EIntegrity].
+Proof. exact length_mismatch_defective_witness. Qed.
+Print Assumptions C07_length_mismatch_defective_witness.
